@@ -85,7 +85,7 @@ def boundary_stmt(stmts):
     return None, None
 
 
-def factor_rule(chk, repo, rid, fi, mode, stmts, rank, ret_index=None, what='returned factor'):
+def factor_rule(chk, repo, rid, fi, mode, stmts, rank, ret_index=None, what='returned factor', const_scale=False):
     """R3: sign domain and factor x scale algebra over the tail after the boundary call"""
     k, b = boundary_stmt(stmts)
     if b is None:
@@ -93,7 +93,7 @@ def factor_rule(chk, repo, rid, fi, mode, stmts, rank, ret_index=None, what='ret
     t = b.targets[0].elts
     if not isinstance(t[1], ast.Name):
         raise AnalysisError(f'{fi.qual} ({mode}): trailing factor is not bound to a name')
-    tail = Tail(t[1].id, norm(t[0]), rank)
+    tail = Tail(t[1].id, norm(t[0]), rank, real=const_scale)
     tail.walk(stmts[k + 1:], {}, ONE, [])
     if not tail.paths:
         raise AnalysisError(f'{fi.qual} ({mode}): no path reaches a return after the boundary call')
@@ -123,10 +123,20 @@ def factor_rule(chk, repo, rid, fi, mode, stmts, rank, ret_index=None, what='ret
         chk.ob(rid, w, f'{fi.name}(mode={mode!r}) [{ftxt}]: {what} is non-negative on this path', sign_nonneg(r, facts),
                f'{what} = {r} under [{ftxt}]', key=f'{rid}|{fi.qual}|{mode}|{ftxt}|sign')
         prod = r * scale
+        if const_scale:
+            from ..factor import real_form
+            prod, scale = real_form(prod), real_form(scale)
         chk.ob(rid, w, f'{fi.name}(mode={mode!r}) [{ftxt}]: ({what}) x (scale applied to the boundary tensor) == T',
                prod == TT, f'{what} = {r}, scale = {scale}, product = {prod}',
                key=f'{rid}|{fi.qual}|{mode}|{ftxt}|product')
         n += 2
+        if const_scale:
+            # a zero object is a valid input of orthonormalize: the boundary tensor (an isometry after the QR step) may only
+            # be multiplied by a constant sign; T/|T| or sign(T) is 0 or undefined at T = 0 and destroys the isometry
+            chk.ob(rid, w, f'{fi.name}(mode={mode!r}) [{ftxt}]: the scale applied to the boundary tensor is a constant sign '
+                   f'(defined and of modulus one also for a vanishing trailing factor)', scale.a == 0 and scale.b == 0,
+                   f'scale = {scale}', key=f'{rid}|{fi.qual}|{mode}|{ftxt}|const-scale')
+            n += 1
     return n
 
 
@@ -171,7 +181,7 @@ def run(chk, repo, tier):
             chk.ob('C01.R2', where(repo, fi, b), f'{fi.name}(mode={mode!r}): dummy neighbour is a 1-element tensor of rank {rank}',
                    d == want, d, key=f'C01.R2|{q}|{mode}|dummy-rank')
             n2 += 1
-            n3 += factor_rule(chk, repo, 'C01.R3', fi, mode, stmts, rank)
+            n3 += factor_rule(chk, repo, 'C01.R3', fi, mode, stmts, rank, const_scale=True)
         # empty chain
         g = fi.node.body[0] if not isinstance(fi.node.body[0], ast.Expr) else fi.node.body[1]
         ok = isinstance(g, ast.If) and norm(g.test) == 'len(self.A) == 0' and len(g.body) == 1 and \
